@@ -217,6 +217,11 @@ func c17Systematic() []ref.Expr {
 			&ref.ListLit{Items: []ref.Expr{&ref.Tern{C: x, A: one, B: two}, &ref.Binary{Op: "?:", L: y, R: z}, &ref.Unary{Op: "-", X: one}}},
 		}
 		c17Sys = append(c17Sys, extra...)
+		// float literals across the whole range: every decade (where integer conversions, exponent forms and
+		// denormals change the printer's path) with several mantissas, and the powers of two around 2^53 and 2^63
+		for _, f := range gen.FloatLadder() {
+			c17Sys = append(c17Sys, f, &ref.Unary{Op: "-", X: f}, &ref.Binary{Op: "*", L: f, R: x})
+		}
 	})
 	return c17Sys
 }
@@ -289,7 +294,7 @@ func init() {
 			if i < len(sys)*3 {
 				e = sys[i%len(sys)]
 			} else {
-				g := &gen.G{R: ctx.Rng, O: gen.Opts{Globals: true, IJ: true, Astral: true}}
+				g := &gen.G{R: ctx.Rng, O: gen.Opts{Globals: true, IJ: true, Astral: true, WideFloats: true}}
 				g.IJTy = []gen.Field{{Name: "user", Ty: gen.TStr}, {Name: "count", Ty: gen.TInt}}
 				for _, p := range gen.ParamPool {
 					g.Bind(p.Name, p.Ty)
